@@ -12,6 +12,7 @@ import (
 
 	sdk "github.com/cosmos/cosmos-sdk/types"
 	authtypes "github.com/cosmos/cosmos-sdk/x/auth/types"
+	"github.com/cosmos/cosmos-sdk/x/authz"
 	banktypes "github.com/cosmos/cosmos-sdk/x/bank/types"
 
 	ratelimittypes "github.com/cosmos/ibc-go/v11/modules/apps/rate-limiting/types"
@@ -47,6 +48,8 @@ type XferInfo struct {
 	RecvOK    bool // destination credited the receiver
 	Refunded  bool
 	ExpectOK  bool // model: the destination must accept (valid, unblocked receiver)
+	Granter   int  // >= 0: executed under an authz grant of this account
+	Sentinel  bool // amount was the "entire balance" sentinel
 	Fwd       *FwdInfo
 }
 
@@ -83,6 +86,9 @@ type tokState struct {
 	genSupply []map[string]sdkmath.Int
 	blockKinds map[string]bool // what the current block contained (for attribution)
 	rl         map[rlKey]*rlModel
+	grants     map[grantKey]map[string]*allocModel
+	pendingGrantKey grantKey
+	pendingGrant    map[string]*allocModel
 }
 
 const supplyKey = "supply"
@@ -136,6 +142,7 @@ func (p *Core) initLedger() {
 	t := &p.tok
 	t.pending = map[int64]*XferInfo{}
 	t.rl = map[rlKey]*rlModel{}
+	t.grants = map[grantKey]map[string]*allocModel{}
 	t.natives = append([]string{"ufoo"}, p.Opt.Denoms...)
 	for ci := range p.C {
 		b := p.snapshotBank(ci)
@@ -291,7 +298,14 @@ func (p *Core) recvAddress(dst *sim.Chain, kind string) (string, bool) {
 func (p *Core) execXfer(op sim.Op) {
 	w := p.w
 	r := p.route(op.P)
-	parts := strings.SplitN(op.S, ";", 4)
+	parts := strings.Split(op.S, ";")
+	granter := -1 // >= 0: the transfer is executed by grantee op.C on behalf of this account (authz)
+	if len(parts) == 5 && strings.HasPrefix(parts[4], "g") {
+		if g, err := strconv.Atoi(parts[4][1:]); err == nil {
+			granter = g
+		}
+		parts = parts[:4]
+	}
 	if r == nil || !r.Xfer || len(parts) != 4 || op.T == 0 || p.Pkts[op.T] != nil || p.tok.pending[op.T] != nil {
 		w.Noop()
 		return
@@ -303,7 +317,15 @@ func (p *Core) execXfer(op sim.Op) {
 		return
 	}
 	sender := src.Accounts[op.C]
-	if sender.InPool() {
+	signer := sender
+	if granter >= 0 {
+		if granter >= len(src.Accounts) || granter == op.C {
+			w.Noop()
+			return
+		}
+		sender = src.Accounts[granter]
+	}
+	if signer.InPool() {
 		p.block(src.Idx)
 	}
 	denom, recvKind, tmo, memo := parts[0], parts[1], parts[2], parts[3]
@@ -334,7 +356,18 @@ func (p *Core) execXfer(op sim.Op) {
 		// a returning voucher is burned; a coin native to this chain is escrowed whatever its name
 		Burn: strings.HasPrefix(denom, "ibc/") && strings.HasPrefix(path, r.Port[d]+"/"+r.ID[d]+"/"), Alias: alias, Memo: memo, ExpectOK: valid}
 	p.tok.pending[op.T] = x
-	src.Submit(&sim.TxSpec{Msgs: []sdk.Msg{msg}, Signer: sender, Tag: op.T, Label: "xfer"})
+	x.Granter = granter
+	if op.N < 0 { // the "entire balance" sentinel amount
+		msg.Token.Amount = transfertypes.UnboundedSpendLimit()
+		x.Sentinel = true
+		x.Amount = p.tok.bank[src.Idx].get(sender.String(), denom)
+	}
+	if granter >= 0 {
+		ex := authz.NewMsgExec(signer.Addr, []sdk.Msg{msg})
+		src.Submit(&sim.TxSpec{Msgs: []sdk.Msg{&ex}, Signer: signer, Tag: op.T, Label: "xfer", Grantors: []string{sender.String()}})
+	} else {
+		src.Submit(&sim.TxSpec{Msgs: []sdk.Msg{msg}, Signer: sender, Tag: op.T, Label: "xfer"})
+	}
 	if op.X&flagDefer == 0 {
 		p.tick(time.Second)
 		p.block(src.Idx)
@@ -349,7 +382,18 @@ func (p *Core) applyXfer(ci int, r *sim.TxResult) {
 		return
 	}
 	delete(p.tok.pending, r.Spec.Tag)
-	msg := r.Spec.Msgs[0].(*transfertypes.MsgTransfer)
+	msg, isT := r.Spec.Msgs[0].(*transfertypes.MsgTransfer)
+	if ex, ok := r.Spec.Msgs[0].(*authz.MsgExec); ok {
+		inner, err := ex.GetMessages()
+		if err != nil || len(inner) != 1 {
+			return
+		}
+		msg, isT = inner[0].(*transfertypes.MsgTransfer)
+		defer p.authzAfterExec(ci, r, x, msg)
+	}
+	if !isT {
+		return
+	}
 	var ri int = -1
 	var d int
 	for i, rt := range p.Routes {
@@ -697,6 +741,9 @@ func (p *Core) tokAfterBlock(ci int, res []*sim.TxResult) {
 	t.pred[ci] = amap{}
 	t.blockKinds = map[string]bool{}
 	p.rlAfterBlock(ci, res)
+	if len(t.grants) > 0 {
+		p.authzCompare(ci)
+	}
 
 	// C31: tracked total escrow
 	if w.AnyArmed("C31", "C30") {
